@@ -80,9 +80,8 @@ theorem boundMono_of (n : Nat) (step : Step) (kOf : Nat → Nat)
   · exact h2
   · exact h3
 
-/-- totality of the step model on well-formed jobs: it completes under some bound and never reaches a
-    panic / out-of-fuel branch.  (Dinic's phase loop terminates within `phaseFuel` and the search never gets
-    stuck: not proved here; the driver reports `model-out-of-fuel`/panic outcomes on every case.) -/
+/-- totality of a step on well-formed jobs: it completes under some bound and never reaches a
+    panic / out-of-fuel branch (for the real step model: `subStep_total`, from C03's `sub_step_total`) -/
 def StepTotal (n : Nat) (step : Step) (kOf : Nat → Nat) : Prop :=
   (∀ job a, JobOK n job → a < 4 → ∃ (β : Int) (r : FlowRes), 0 ≤ β ∧ 0 ≤ r.flow ∧
       step job.edges job.ids a (kOf job.ids.length) β = .ok r) ∧
@@ -104,5 +103,26 @@ theorem subStep_boundMono (coord : Nat → Coord) (n : Nat) (kOf : Nat → Nat)
     exact (Tbx.Props.C03.ok_bound_irrelevant job.edges _ _ hpre hjob.small β β' r h hle).1
   · exact htotal.1
   · exact htotal.2
+
+/-- totality of the real step model (C03 `sub_step_total`, which lifts C01/C02's total correctness of the
+    Dinic model to the bounded phase loop) -/
+theorem subStep_total (coord : Nat → Coord) (n : Nat) (kOf : Nat → Nat)
+    (hk : ∀ s, 2 ≤ s → 1 ≤ kOf s ∧ 2 * kOf s ≤ s) :
+    StepTotal n (fun e ids a k β => subStep e ids coord a k β) kOf := by
+  constructor
+  · intro job a hjob _
+    obtain ⟨hk1, hk2⟩ := hk job.ids.length hjob.two
+    exact (Tbx.Props.C03.sub_step_total job.edges job.ids coord a _ hjob.nodup hjob.two hk1 hk2
+      (fun e he => hjob.src e he) hjob.small).1
+  · intro job a β hjob _ _
+    obtain ⟨hk1, hk2⟩ := hk job.ids.length hjob.two
+    exact (Tbx.Props.C03.sub_step_total job.edges job.ids coord a _ hjob.nodup hjob.two hk1 hk2
+      (fun e he => hjob.src e he) hjob.small).2 β
+
+/-- hence `BoundMono` for the real step model, with no assumption left -/
+theorem subStep_boundMono' (coord : Nat → Coord) (n : Nat) (kOf : Nat → Nat)
+    (hk : ∀ s, 2 ≤ s → 1 ≤ kOf s ∧ 2 * kOf s ≤ s) :
+    BoundMono n (fun e ids a k β => subStep e ids coord a k β) kOf :=
+  subStep_boundMono coord n kOf hk (subStep_total coord n kOf hk)
 
 end Tbx.Chipper
